@@ -186,7 +186,7 @@ func init() {
 			o := findingOpts(r)
 			o.Excluded = &excl
 			o.MultiPath = true
-			v0 := newVariant(t, "v0", o, gen.KOpts{NoCustom: true}, nil)
+			v0 := newVariant(t, "v0", o, gen.KOpts{NoCustom: true, ManyTypes: rapid.Bool().Draw(t, "manytypes")}, nil)
 			r.Excluded("shapes", excl)
 			f, c0 := v0.File, v0.Cfg
 			occ := model.Occurrences(f, c0.Types)
